@@ -3,6 +3,7 @@ use anyhow::{Result, bail};
 use serde_json::Value;
 
 pub mod ll;
+pub mod llrun;
 pub mod wf;
 
 pub fn replay_fn(kind: &str) -> Result<fn(&Value) -> Outcome> {
@@ -10,6 +11,7 @@ pub fn replay_fn(kind: &str) -> Result<fn(&Value) -> Outcome> {
         "wf" => wf::replay,
         "c05" => ll::replay_c05,
         "c06" => ll::replay_c06,
+        "llrun" => llrun::replay,
         _ => bail!("unknown replay kind {kind}"),
     })
 }
